@@ -354,7 +354,7 @@ def check_read_reports(ctx, res, stream, sc, raw, clauses, case):
 
 def gen_items(rng, used, shape=None, free_hint=157):
     """one batch: list of ('file', name, content) | ('eos',) | ('missing', name)"""
-    shape = shape or rng.choice(["one", "few", "few", "eos_mix", "many", "big", "overflow"])
+    shape = shape or rng.choice(["one", "few", "few", "eos_mix", "many", "big", "overflow", "fill_exact"])
     items = []
 
     def f(size):
@@ -376,6 +376,12 @@ def gen_items(rng, used, shape=None, free_hint=157):
     elif shape == "big":
         items.append(f(rng.choice([2040 * 20, 2040 * 78, 2040 * 79 + 1, 320280, 320281, 2040 * free_hint, 2040 * free_hint + 1])))
         items.append(f(rng.choice([0, 2041, 100000])))
+    elif shape == "fill_exact":
+        # leave exactly 0, 1 or 2 free blocks on the side, then small files that land in the very last blocks
+        left = rng.choice([0, 1, 1, 2])
+        items.append(f(2040 * (free_hint - left) - rng.choice([0, 0, 1, 254])))
+        for _ in range(rng.choice([1, 2, 3])):
+            items.append(f(rng.choice([0, 1, 100, 2040, 2041])))
     elif shape == "overflow":
         items.append(f(330000))
         items.append(f(10))
